@@ -1,13 +1,24 @@
-(* Model/DispatchC02.v — the timezone dispatch of Model/TzDispatch.v (zone_probe, create) plus the history machine of Model/WallHistory.v.
+(* Model/DispatchC02.v — the two entries of Model/TzDispatch.v that C02 uses (same numbers and argument layout; repeated here because the
+   extracted entry point must be the only function named `dispatch`) plus the history machine of Model/WallHistory.v.
+   A zone is passed as  init :: n :: t1 :: o1 :: ... ;
    hist: args = the operations of the history, each  opcode :: [zone window] :: scalars  (WallHistory.parse_op). *)
-From Coq Require Import ZArith List.
-From PV Require Import Model.TzDispatch Model.WallHistory.
+From Coq Require Import ZArith List Bool.
+From PV Require Import Lib.PyBase Spec.Cal Spec.Zone Model.TzConvert Model.TzDispatch Model.WallHistory.
 Import ListNotations.
 Open Scope Z_scope.
+
 Definition dispatch (fn : Z) (args : list Z) : list Z :=
   match fn with
-  | 1 (* zone_probe *) => TzDispatch.dispatch 1 args
-  | 2 (* create *) => TzDispatch.dispatch 2 args
-  | 20 (* hist *) => WallHistory.run_history args
-  | _ => [9]
+  | 20 (* hist *) => run_history args
+  | _ =>
+    match parse_zone args with
+    | None => [9]
+    | Some (z, rest) =>
+      match fn, rest with
+      | 1 (* zone_probe *), [u; w] =>
+          [0; off_utc z u; Z.b2z (fold_utc z u); off_local z w false; off_local z w true; Z.b2z (wf_zone z); Z.b2z (wf2_zone z)]
+      | 2 (* create *), [fixed; W; f; r] => out_dt z (create z (zb fixed) W (zb f) (zb r))
+      | _, _ => [9]
+      end
+    end
   end.
